@@ -33,6 +33,7 @@ VideoCorruption = DashOption(
         'Invalid data is placed inside NAL packets of video frames. ' +
         'Each time must be in the form HH:MM:SSZ.'),
     from_string=DashOption.list_without_none_from_string,
+    to_string=lambda times: ','.join(times),
     cgi_name='vcorrupt',
     cgi_type='<time>,..',
     featured=False)
